@@ -106,7 +106,18 @@ def sym_binop(it, op, a, b, node=None):
         return q
     if op in ("FloorDiv", "Mod"):
         if ta.sort != "Int" or tb.sort != "Int":
-            raise Unsupported(f"{op} on reals")
+            if op != "FloorDiv":
+                raise Unsupported(f"{op} on reals")
+            # float // float: floor of the real quotient (a float in Python; exact over the reals here)
+            ra, rb = lift(ta, "Real"), lift(tb, "Real")
+            z = Eq(rb, R(0))
+            if not it.spec_mode and it.truth(z, "div0"):
+                it.raise_(ZeroDivisionError, "float floor division by zero")
+            q = it.fresh("quot", "Real")
+            fl = it.fresh("floor", "Int")
+            it.ctx.assume(Implies(Not(z), Eq(smt.Mul(q, rb), ra)))
+            it.ctx.assume(And(smt.Cmp("<=", lift(fl, "Real"), q), smt.Cmp("<", q, smt.Add(lift(fl, "Real"), R(1)))))
+            return lift(fl, "Real")
         cb = smt._const_int(tb)
         if cb is None:
             z = Eq(tb, I(0))
